@@ -331,7 +331,25 @@ theorem check_of_fetch {t : LamTy} (hc : checkAll t.bc t.tm t.entry = true) {o :
   rw [hst] at this
   simp only at this
   rw [hf] at this
-  exact this
+  simp only [Bool.and_eq_true] at this
+  exact this.2
+
+/-- the verifier's check of the cell after an opcode at a typed offset: a `BasePointerOffset` there
+    (the source operand of MOV / PUSH) is in procedure code and not above the frame base -/
+theorem src_of_fetch {t : LamTy} (hc : checkAll t.bc t.tm t.entry = true) {o : Nat} {op : Op}
+    {st : AState} (hf : t.bc[o]? = some (.opcode op)) (hst : stateAt t.tm o = some st) :
+    bpSrcOk t.entry t.bc[o + 1]? = true := by
+  have ho : o < t.bc.length := by
+    by_cases h : o < t.bc.length
+    · exact h
+    · rw [List.getElem?_eq_none (by omega)] at hf; cases hf
+  have := checkAll_at hc ho
+  unfold checkAt at this
+  rw [hst] at this
+  simp only at this
+  rw [hf] at this
+  simp only [Bool.and_eq_true] at this
+  exact this.1
 
 /-- the typing of the code objects of a heap -/
 def tyOf (code : Nat → Option (List VCell)) : Typing := fun l => (code l).bind verifyLam
